@@ -42,7 +42,7 @@ def cases(tier, seed):
                 for obj in ("mll", "loo"):
                     b = rnd.choice(BATCH)
                     yield {
-                        "kernel": kern, "mean": rnd.choice(["zero", "constant", "linear"]), "lik": lik, "n": rnd.choice([1, 2, 5, 9]), "d": rnd.choice([1, 2]),
+                        "kernel": kern, "mean": rnd.choice(["zero", "constant", "linear", "constant_constrained"]), "lik": lik, "n": rnd.choice([1, 2, 5, 9]), "d": rnd.choice([1, 2]),
                         "batch": b, "priors": rnd.choice(["none", "independent", "shared", "independent"]), "objective": obj,
                         "path": rnd.choice(["cholesky", "default", "default"]), "seed": rnd.randrange(10**6),
                         # how the priors were registered (closure / parameter name) and whether the objective is evaluated on
@@ -52,6 +52,11 @@ def cases(tier, seed):
         for t, rank in ((2, 0), (3, 1), (2, 2)):
             yield {"kernel": KERNELS[rep % 2], "lik": "mt", "t": t, "rank": rank, "n": rnd.choice([1, 4]), "d": 1, "batch": [], "priors": rnd.choice(["none", "independent"]),
                    "objective": "mll", "path": "cholesky", "seed": rnd.randrange(10**6)}
+        # single observation / as many observations as batch elements, under batch shapes (squeeze hazards)
+        for n_, b_ in ((1, [2]), (1, [3, 2]), (1, [2, 2]), (2, [2]), (3, [3]), (2, [3, 1])):
+            for obj in ("loo", "mll"):
+                yield {"kernel": KERNELS[rep % 2], "mean": "constant", "lik": rnd.choice(["gauss", "fixed"]), "n": n_, "d": 1, "batch": b_, "priors": "none", "objective": obj,
+                       "path": "cholesky", "seed": rnd.randrange(10**6)}
         # priors handed to the constructors (`<parameter>_prior=`): each must enter at the constrained value of ITS parameter
         for variant in ("cyl", "std"):
             yield {"kernel": {"k": "ctor_" + variant}, "mean": "constant", "lik": "gauss", "n": rnd.choice([3, 6]), "d": 2, "batch": [], "priors": "ctor", "objective": rnd.choice(["mll", "loo"]),
@@ -208,7 +213,7 @@ def _dense_logp(model, lik, X, y, mt):
 
     with S.lazily_evaluate_kernels(False):
         K = model.covar_module(X).to_dense()
-        mx = model.mean_module(X)
+        mx = util.mean_oracle(model.mean_module, X)
     n = X.shape[-2]
     if mt:
         t = y.shape[-1]
